@@ -132,7 +132,48 @@ where
             }
         }
     }
-    // complete the configuration with the parameters that are not under test, then solve
+    // complete the configuration with valid values for whatever the sequence did not set (except the step
+    // bounds, whose interplay is under test), then solve
+    if !m.tol {
+        b = match b.with_tolerance(S::lit(0.5)) {
+            Ok(b) => b,
+            Err(_) => {
+                S::prove("completion/valid-tolerance-accepted", S::b_const(false));
+                return;
+            }
+        };
+        m.tol = true;
+    }
+    match (m.t0, m.t1) {
+        (None, None) => {
+            b = b.with_initial_time(S::lit(0.0)).and_then(|b| b.with_ending_time(S::lit(100.0))).ok().unwrap();
+            m.t0 = Some(S::lit(0.0));
+            m.t1 = Some(S::lit(100.0));
+        }
+        (Some(s0), None) => {
+            let e = s0 + S::lit(100.0);
+            b = match b.with_ending_time(e) {
+                Ok(b) => b,
+                Err(_) => {
+                    S::prove("completion/later-ending-time-accepted", S::b_const(false));
+                    return;
+                }
+            };
+            m.t1 = Some(e);
+        }
+        (None, Some(e)) => {
+            let s0 = e - S::lit(100.0);
+            b = match b.with_initial_time(s0) {
+                Ok(b) => b,
+                Err(_) => {
+                    S::prove("completion/earlier-starting-time-accepted", S::b_const(false));
+                    return;
+                }
+            };
+            m.t0 = Some(s0);
+        }
+        _ => {}
+    }
     let y0 = S::input("y0", -1.0, 1.0);
     let mut b = match b.with_initial_conditions_slice(&[y0]) {
         Ok(b) => b,
@@ -141,7 +182,8 @@ where
             return;
         }
     };
-    b = b.with_derivative(tape_rhs(log.clone(), 1.0, None));
+    // a right-hand side at rest: only the times of the derivative calls are observed (no controller forks)
+    b = b.with_derivative(fn_rhs::<S, Const<1>, _>(log.clone(), |_t: S, y: &[S]| y.iter().map(|_| S::lit(0.0)).collect()));
     let complete_steps = if kind == Kind::Euler { m.min.is_some() || m.max.is_some() } else { m.min.is_some() && m.max.is_some() };
     let complete = complete_steps && m.t0.is_some() && m.t1.is_some() && (m.tol || kind == Kind::Euler);
     match b.solve(()) {
